@@ -1460,7 +1460,28 @@ class ModelBuilder:
                 elif key == "allocate":
                     # Set for all scenarios
                     for scIdx in range(obj.project.scenarioCount()):
-                        obj[("allocate", scIdx)] = value
+                        attr = obj._get_scenario_attribute("allocate", scIdx)
+                        earlier = list(attr.get() or []) if attr.provided else []
+                        if earlier and (isinstance(value, dict) or any(isinstance(e, dict) for e in earlier)):
+                            # Several allocate statements in one body, at least one with options:
+                            # the scheduler understands ONE structure, so fold them together
+                            merged: dict[str, Any] = {"resources": [], "options": {}}
+                            for entry in [*earlier, value]:
+                                if isinstance(entry, dict):
+                                    merged["resources"].extend(entry.get("resources", []))
+                                    for opt, opt_value in entry.get("options", {}).items():
+                                        if isinstance(opt_value, list):
+                                            merged["options"].setdefault(opt, []).extend(opt_value)
+                                        else:
+                                            merged["options"][opt] = opt_value
+                                elif isinstance(entry, list):
+                                    merged["resources"].extend(entry)
+                                else:
+                                    merged["resources"].append(entry)
+                            attr.reset()
+                            obj[("allocate", scIdx)] = merged
+                        else:
+                            obj[("allocate", scIdx)] = value
                 elif key == "start":
                     # Set for all scenarios
                     for scIdx in range(obj.project.scenarioCount()):
